@@ -11,7 +11,7 @@ use raqote::*;
 pub struct C16;
 
 fn case_str(p: &PathSpec, tol: f32) -> String {
-    format!("tol={:?} path={}", tol, p)
+    format!("tol={:?} unit={:?} path={}", tol, unit(), p)
 }
 
 struct Fail {
@@ -26,6 +26,18 @@ fn p2(x: f32, y: f32) -> P2 {
 
 fn biteq(a: Point, x: f32, y: f32) -> bool {
     a.x.to_bits() == x.to_bits() && a.y.to_bits() == y.to_bits()
+}
+
+/// size of the user unit relative to the one the absolute slacks below were chosen for (bits of
+/// an f64; set around a family, read by the workers)
+static UNIT_BITS: std::sync::atomic::AtomicU64 = std::sync::atomic::AtomicU64::new(0x3ff0000000000000);
+
+fn unit() -> f64 {
+    f64::from_bits(UNIT_BITS.load(std::sync::atomic::Ordering::Relaxed))
+}
+
+fn set_unit(u: f64) {
+    UNIT_BITS.store(u.to_bits(), std::sync::atomic::Ordering::Relaxed);
 }
 
 /// match input ops [i..] against output ops [o..]
@@ -91,7 +103,7 @@ fn matcher(ins: &[POp], outs: &[PathOp], i: usize, o: usize, cursor: Option<P2>,
                     for s in curve.sample(64) {
                         dev = dev.max(dist_polyline(s, emitted));
                     }
-                    if dev > 8.0 * tol + 1e-4 {
+                    if dev > 8.0 * tol + 1e-4 * unit() {
                         let e = Fail { clause: "deviation-exceeds-8x-tolerance", detail: format!("input op {} ({:?}) from start ({},{}): polyline of {} segment(s) deviates {:.4} from the curve, tolerance {}", i, ins[i], curve.start().0, curve.start().1, k, dev, tol), depth: i };
                         if best_err.as_ref().map_or(true, |b| b.depth <= e.depth) {
                             best_err = Some(e);
@@ -112,8 +124,8 @@ fn matcher(ins: &[POp], outs: &[PathOp], i: usize, o: usize, cursor: Option<P2>,
                     }
                 }
                 // as an interior vertex it must lie on the curve at a non-decreasing parameter
-                let (d, t) = curve.first_hit(pp, tprev, 2e-3);
-                if d > 2e-3 {
+                let (d, t) = curve.first_hit(pp, tprev, 2e-3 * unit());
+                if d > 2e-3 * unit() {
                     let e = Fail { clause: "vertex-not-on-curve", detail: format!("input op {} ({:?}) with model start point ({},{}): emitted vertex ({},{}) is {:.4} away from the curve (at or after parameter {:.3})", i, ins[i], curve.start().0, curve.start().1, p.x, p.y, d, tprev), depth: i };
                     return Err(best_err.filter(|b| b.depth > e.depth).unwrap_or(e));
                 }
@@ -259,7 +271,7 @@ fn strings(run: &Run, name: &str, alpha: &[POp], depth: usize, tols: &[f32]) {
                     l.transitions += 1;
                     l.traces += 1;
                     l.evals += 1;
-                    match eval(&p, tol, ti == 0) {
+                    match eval(&p, tol, ti == 0 && unit() == 1.0) {
                         Ok((h, curve, dev)) => {
                             l.outcome(h);
                             if curve {
@@ -394,6 +406,18 @@ impl Check for C16 {
                 }
             });
         }
+        // the same strings in a unit 2^-12 (and 2^10) times the usual one, tolerances scaled along:
+        // nothing in flattening may depend on the absolute size of the unit
+        for exp in [-12i32, 10] {
+            let k = (2.0f32).powi(exp);
+            let sc = |p: &(f32, f32)| (p.0 * k, p.1 * k);
+            let pts_s: Vec<(f32, f32)> = pts4.iter().map(sc).collect();
+            let ctrl_s: Vec<(f32, f32)> = ctrl[..3].iter().map(sc).collect();
+            let tols_s: Vec<f32> = [0.01f32, 0.1, 0.001].iter().map(|t| t * k).collect();
+            set_unit(k as f64);
+            strings(run, &format!("4-point alphabet depth 2, unit 2^{}", exp), &alphabet(&pts_s, &ctrl_s), 2, &tols_s);
+            set_unit(1.0);
+        }
         if q {
             strings(run, "9-point alphabet depth 1, fine tolerances", &alphabet(&pts9, &ctrl), 1, &fine);
             strings(run, "4-point alphabet depth 2, fine tolerances", &alphabet(&pts4, &ctrl[..3]), 2, &fine);
@@ -414,6 +438,10 @@ impl Check for C16 {
         let m = kv(case);
         let tol: f32 = kv_s(&m, "tol")?.parse().map_err(|e: std::num::ParseFloatError| e.to_string())?;
         let p = parse_path(kv_s(&m, "path")?)?;
-        Ok(eval(&p, tol, true).err())
+        let u: f64 = m.get("unit").and_then(|v| v.parse().ok()).unwrap_or(1.0);
+        set_unit(u);
+        let r = eval(&p, tol, u == 1.0).err();
+        set_unit(1.0);
+        Ok(r)
     }
 }
